@@ -93,10 +93,54 @@ def run(tier):
         if a:
             raise ToolError("binding self-test failed")
         v.add(binding_selftest="record with one corrupted byte rejected")
+    # ---- the representations whose value IS a byte string (raw varint / decimal): sent as is, handed back as is
+    g = tlc("MC_RawBytes", "MC_RawBytes.cfg", workers=2, timeout=300)
+    if not g.ok() or not g.finished:
+        raise ToolError("MC_RawBytes failed: %s" % g.out[-300:])
+    raws = g.json_prints("RAW")
+    if len(raws) < 150:
+        raise ToolError("too few raw byte samples: %d" % len(raws))
+    rin, rout = os.path.join(wd, "raw.in.ndjson"), os.path.join(wd, "raw.out.ndjson")
+    write_ndjson(rin, raws)
+    run_harness("vh-cql", ["c01-raw", rin, rout], timeout=600)
+    rrows = read_ndjson(rout)
+    if len(rrows) != 7 * len(raws):
+        raise ToolError("c01-raw: %d records for %d samples" % (len(rrows), len(raws)))
+    acc, rr, rej = validate_trace("Trace_RawBytes", "Trace_RawBytes.cfg", rout, timeout=600)
+    if not acc:
+        raise ToolError("Trace_RawBytes did not consume its input (line %s)" % rej)
+    import re as _re
+    for b in sorted({int(m.group(1)) - 1 for m in _re.finditer(r'<<"BAD", (\d+)>>', rr.out)})[:5]:
+        x = rrows[b]
+        v.violation("carrier %s holding the raw bytes %s: cell %s (%s), decoded back to %s (%s) — the bytes a raw varint / decimal holds are sent as they are and come back as they are" % (
+            x["carrier"], x["b"], x["cell"], x["err"] or "ok", x["back"], x["back_err"] or "ok"), [x])
+    v.add(raw_byte_samples=len(raws), raw_byte_records=len(rrows),
+          raw_byte_samples_not_minimal=sum(1 for x in raws if len(x["b"]) == 0 or (len(x["b"]) > 1 and ((x["b"][0] == 0 and x["b"][1] < 128) or (x["b"][0] == 255 and x["b"][1] >= 128)))))
+    # ---- tuple values carrying fewer elements than their type, into typed Rust tuples (padded with nulls)
+    gs = tlc("MC_ShortTuple", "MC_ShortTuple.cfg", workers=2, timeout=300)
+    if not gs.ok() or not gs.finished:
+        raise ToolError("MC_ShortTuple failed: %s" % gs.out[-300:])
+    shorts = gs.json_prints("SHORT")
+    if len(shorts) < 20:
+        raise ToolError("too few short-tuple cases: %d" % len(shorts))
+    sin, sout = os.path.join(wd, "short.in.ndjson"), os.path.join(wd, "short.out.ndjson")
+    write_ndjson(sin, shorts)
+    run_harness("vh-cql", ["c01-short", sin, sout], timeout=600)
+    srows = read_ndjson(sout)
+    if len(srows) != 2 * len(shorts):
+        raise ToolError("c01-short: %d records for %d cases" % (len(srows), len(shorts)))
+    acc, rs_, rej = validate_trace("Trace_ShortTuple", "Trace_ShortTuple.cfg", sout, timeout=600)
+    if not acc:
+        raise ToolError("Trace_ShortTuple did not consume its input (line %s)" % rej)
+    for b in sorted({int(m.group(1)) - 1 for m in _re.finditer(r'<<"BAD", (\d+)>>', rs_.out)})[:5]:
+        x = srows[b]
+        v.violation("a tuple value carrying %d of its type's %d elements (bytes %s), decoded into a Rust tuple of Options (%s): %s, elements came back as %s %s, expected %s (1 = the value, 0 = null) — missing trailing elements come back as nulls" % (
+            x["k"], x["n"], x["wire"], x["shape"], "accepted" if x["ok"] else "REFUSED: " + x["err"][:120], x["got"], x["got2"] if x["shape"] == "list" else "", x["want"]), [x])
+    v.add(short_tuple_cases=len(shorts), short_tuple_records=len(srows))
     v.assumptions += ["floats are raw bit patterns (NaN payloads are ordinary values); time-zone semantics of chrono/time carriers are outside the reference",
                       "records of carriers with their own iteration order (HashSet/HashMap) are canonicalised before judging; Rust tuples shorter than the column type are serialise-only (checks/c01prep.py)",
                       "a tuple / UDT given fewer fields may be written short or with explicit trailing nulls; a zero-length tuple cell is the 'empty' value",
-                      "decode-only inputs (non-normalised varints) are exercised by C08's decoder population"]
+                      "non-normalised varints / decimals: the raw-byte carriers here (documented: 'bytes provided by the user via constructor are passed to DB as is'); other decode-only inputs are exercised by C08's decoder population"]
     return v.finish()
 
 
